@@ -142,6 +142,9 @@ def family(tier):
         # the pause since the recording began must not count into its recorded hold time
         ("taphold_held", make(["rec1", "stop", "play1"], {}, "recorded", 2, th=("c", 3, "a", "lsft")),
          dict(D=5, saves=1, maclen=2, held=2)),
+        # re-recording: a second recording under the same id, also one that ends up empty (stop key pressed at once, the
+        # record key still held, everything truncated): it replaces what was stored, the replay then types nothing
+        ("rerec", make(["rec1", "stopt1", "play1"], A, "constant", 2), dict(D=0, saves=2, maclen=2, held=2)),
         # control keys processed later than they arrive: bursts that include the record / stop keys
         ("late", make(["rec1", "stop", "play1"], A, "constant", 2), dict(D=0, saves=1, maclen=2 if big else 1, qmax=2, late=True)),
     ]
@@ -308,6 +311,18 @@ def directed(cfgname, rng, tier):
              tap("stop", 1, 2) + tap("play2", 1, 0) + wait_replay(20) + [["t", 30]])
     S.append(recmac("rec1", ab) + tap("rec2") + tap("play1", 1, 0) + wait_replay(8) + tap("b") + tap("play1", 1, 0) + wait_replay(8) +
              tap("stop", 1, 2) + tap("play2", 1, 0) + wait_replay(30) + tap("play2", 1, 0) + wait_replay(30) + [["t", 30]])
+    # re-recording with a body of 0..1 events that ends up empty or not after the stop key and the truncated tail are
+    # dropped, for every way of stopping, record key released or still held: the new recording replaces the old one
+    for first in (tap("a"), ab):
+        for body in ([], [["d", C("a")], ["t", 1]], tap("a")):
+            for st in stops:
+                for held in (False, True):
+                    if held and st == "rec1":
+                        continue
+                    s2 = ([["d", C("rec1")], ["t", 2]] if held else tap("rec1")) + body + tap(st, 1, 2) + \
+                         ([["u", C("rec1")], ["t", 1]] if held else []) + (tap("stop", 1, 2) if st == "rec2" else [])
+                    rel = [["u", C("a")], ["t", 1]] if len(body) == 2 else []
+                    S.append(recmac("rec1", first) + s2 + rel + [["d", C("play1")]] + wait_replay(6) + [["u", C("play1")], ["t", 30]])
     # re-recording replaces; switching by the other record key saves and starts
     S.append(recmac("rec1", ab) + tap("play1", 1, 0) + wait_replay(6) + recmac("rec1", tap("b")) + tap("play1", 1, 0) + wait_replay(6) + [["t", 30]])
     S.append(tap("rec1") + tap("a") + tap("rec2") + tap("b") + tap("rec2", 1, 2) + tap("play1", 1, 0) + wait_replay(6) + tap("play2", 1, 0) +
@@ -436,7 +451,7 @@ def run(tier, seed):
     cfgdesc.keytable()
     if tier == "quick":
         from concurrent.futures import ThreadPoolExecutor
-        with ThreadPoolExecutor(max_workers=3) as ex:
+        with ThreadPoolExecutor(max_workers=2) as ex:
             results = list(ex.map(one, fam))
     else:
         results = [one(f) for f in fam]
